@@ -77,7 +77,7 @@ def write_table(head, vhead):
                      cur.get("applies"), cur.get("detected_by_target_property"), ",".join(cur.get("detected_by", [])), first, (meta.get("summary") or "")[:170]))
     with open(os.path.join(SEEDED, "TABLE.md"), "w") as f:
         f.write("# Seeded changes and the checks that report them\n\nLast re-evaluation by tools/reeval_seeds.py: repo HEAD %s, /verif %s.  `all checks that fire` lists the properties whose check "
-                "exits 1 with a VIOLATION that is absent on the clean tree.  Round 1 seeds were used to strengthen the checks as they arrived; round 2 seeds were first run against "
+                "exits 1 with a VIOLATION that is absent on the clean tree.  Round 1 seeds were used to strengthen the checks as they arrived; seeds of round 2 and later were first run against "
                 "the checks as they stood (`first shot`: did the target property's check fire, and if not which checks did) and only then used to strengthen them.\n\n" % (head, vhead))
         f.write("| seed | breaks | round | first shot | applies | target check fires now | all checks that fire now | first key reported by the target check | change |\n|---|---|---|---|---|---|---|---|---|\n")
         for row in rows:
